@@ -337,24 +337,24 @@ def i_DIV1(ins, fmap):
     # case oldq 0, M 0:
     tmp0 = rn
     rn_00 = rn - fmap(Rm)
-    tmp1 = rn_00 > tmp0
+    tmp1 = oper(OP_LTU, tmp0, rn_00)  # unsigned comparisons
     newq0_0 = tst(q, tmp1 == bit0, tmp1)
     # case oldq0, M 1:
     tmp0 = rn
     rn_01 = rn + fmap(Rm)
-    tmp1 = rn_01 < tmp0
+    tmp1 = oper(OP_LTU, rn_01, tmp0)
     newq0_1 = tst(q, tmp1, tmp1 == bit0)
     rn0 = tst(fmap(M), rn_01, rn_00)
     newq0 = tst(fmap(M), newq0_1, newq0_0)
     # case oldq 1, M 0:
     tmp0 = rn
     rn_10 = rn + fmap(Rm)
-    tmp1 = rn_10 < tmp0
+    tmp1 = oper(OP_LTU, rn_10, tmp0)
     newq1_0 = tst(q, tmp1 == bit0, tmp1)
     # case oldq 1, M 1:
     tmp0 = rn
     rn_11 = rn - fmap(Rm)
-    tmp1 = rn_11 > tmp0
+    tmp1 = oper(OP_LTU, tmp0, rn_11)
     newq1_1 = tst(q, tmp1, tmp1 == bit0)
     rn1 = tst(fmap(M), rn_11, rn_10)
     newq1 = tst(fmap(M), newq1_1, newq1_0)
